@@ -11,8 +11,18 @@ void __verif_throw_std(int tid) { __verif_exc_obj = __verif_exc_buf; __verif_exc
 /* string buffers up to RT_STR_BLOCK bytes are allocated as blocks of exactly that constant size: a constant-size object is
  * bit-blasted by cbmc instead of going through its (quadratic) array theory.  The buffer belongs to libstdc++'s std::string,
  * whose own bounds discipline is trusted here, so the slack does not weaken any check of xtl code. */
+#ifndef RT_STR_BLOCK
 #define RT_STR_BLOCK 64
+#endif
+#ifdef RT_STR_BLOCK_ONLY
+/* every string buffer is one constant-size block; a request beyond it fails an assertion (stated bound of the obligation) */
+static u8* rt_new(u64 n) { u8* p = (u8*)malloc(RT_STR_BLOCK);
+#ifdef __CPROVER__
+  __CPROVER_assert(n <= RT_STR_BLOCK, "std::string buffer request exceeds the block size stated for this obligation");
+#endif
+#else
 static u8* rt_new(u64 n) { u8* p = n <= RT_STR_BLOCK ? (u8*)malloc(RT_STR_BLOCK) : (u8*)malloc(n);
+#endif
 #ifdef __CPROVER__
   __CPROVER_assume(p != 0);
 #endif
@@ -59,3 +69,45 @@ void ext__ZNKSt7__cxx1119basic_ostringstreamIcSt11char_traitsIcESaIcEE3strEv(rt_
   (void)self; ret->p = ret->u.local; ret->len = 0; ret->u.local[0] = 0;
 }
 void ext__ZSt28__throw_bad_array_new_lengthv(void) { __verif_throw_std(__verif_tid__ZTISt9bad_alloc); }
+
+/* basic_string& _M_replace(size_type pos, size_type len1, const char* s, size_type len2)  (s does not alias *this in any caller here) */
+rt_string* ext__ZNSt7__cxx1112basic_stringIcSt11char_traitsIcESaIcEE10_M_replaceEmmPKcm(rt_string* s, u64 pos, u64 len1, u8* src, u64 len2) {
+  u64 old = s->len;
+  if (len2 > RT_STR_MAX - (old - len1)) { __verif_throw_std(__verif_tid__ZTISt12length_error); return s; }
+  u64 new_size = old + len2 - len1;
+  if (new_size <= rt_capacity(s)) {
+    u8* p = s->p + pos; u64 how_much = old - pos - len1;
+    if (how_much && len1 != len2) __verif_memmove(p + len2, p + len1, how_much);
+    if (len2) __verif_memcpy(p, src, len2);
+  } else {
+    ext__ZNSt7__cxx1112basic_stringIcSt11char_traitsIcESaIcEE9_M_mutateEmmPKcm(s, pos, len1, src, len2);
+    if (__verif_exc_pending) return s;
+  }
+  s->len = new_size; s->p[new_size] = 0;
+  return s;
+}
+/* basic_string& _M_replace_aux(size_type pos, size_type n1, size_type n2, char c) */
+rt_string* ext__ZNSt7__cxx1112basic_stringIcSt11char_traitsIcESaIcEE14_M_replace_auxEmmmc(rt_string* s, u64 pos, u64 n1, u64 n2, u8 c) {
+  u64 old = s->len;
+  if (n2 > RT_STR_MAX - (old - n1)) { __verif_throw_std(__verif_tid__ZTISt12length_error); return s; }
+  u64 new_size = old + n2 - n1;
+  if (new_size <= rt_capacity(s)) {
+    u8* p = s->p + pos; u64 how_much = old - pos - n1;
+    if (how_much && n1 != n2) __verif_memmove(p + n2, p + n1, how_much);
+  } else {
+    ext__ZNSt7__cxx1112basic_stringIcSt11char_traitsIcESaIcEE9_M_mutateEmmPKcm(s, pos, n1, 0, n2);
+    if (__verif_exc_pending) return s;
+  }
+  if (n2) __verif_memset(s->p + pos, c, n2);
+  s->len = new_size; s->p[new_size] = 0;
+  return s;
+}
+/* size_type rfind(char c, size_type pos) const noexcept */
+u64 ext__ZNKSt7__cxx1112basic_stringIcSt11char_traitsIcESaIcEE5rfindEcm(rt_string* s, u8 c, u64 pos) {
+  u64 size = s->len;
+  if (size) {
+    if (--size > pos) size = pos;
+    for (++size; size-- > 0;) if (s->p[size] == c) return size;
+  }
+  return 0xFFFFFFFFFFFFFFFFULL;
+}
